@@ -119,7 +119,21 @@ func checkC07(p *Prog, r *Report) {
 				}
 				// BO-WHOLE
 				if (inPayload || rel == "meta/utils") && (x.Op == token.SHR || x.Op == token.SHL || x.Op == token.AND) {
-					if src := orderedSource(x.X, 0); src != "" {
+					// a signature recogniser of meta/utils has no order to respect: it reads with the one order it tests for, and
+					// BO-SYM decides its accept set byte by byte (a word compare split by shifts is an exact test there)
+					fixedOrderRecogniser := false
+					if rel == "meta/utils" {
+						fixedOrderRecogniser = true
+						if rc := f.Signature.Recv(); rc != nil && isByteOrderType(rc.Type()) {
+							fixedOrderRecogniser = false
+						}
+						for i := 0; i < f.Signature.Params().Len(); i++ {
+							if isByteOrderType(f.Signature.Params().At(i).Type()) {
+								fixedOrderRecogniser = false
+							}
+						}
+					}
+					if src := orderedSource(x.X, 0); src != "" && !(fixedOrderRecogniser && src != "Tag.ValueOffset") {
 						r.Bad("BO-WHOLE", fmt.Sprintf("%s | %s on %s", fnName(f), x.Op, src), at, "a value read with the payload's byte order (or the raw offset slot) is taken apart with shifts/masks: that is only right for one of the two orders")
 					}
 				}
